@@ -89,3 +89,8 @@ impl Unit {
         }
     }
 }
+
+// Verification hooks: `mrt_file_in` is a private module; its guarded child
+// facade is re-exported here so that `crate::verif::mrt` can reach it.
+#[cfg(feature = "verif-hooks")]
+pub use mrt_file_in::verif as verif_mrt_file_in;
